@@ -19,6 +19,8 @@ Decided:
      padded to the curve width, which equals the JWK coordinate width (32/48/66);
   R7 JWS shape: protected header members {alg, jwk?, kid?, nonce?, url} (optional ones skipped when absent), flattened
      object {protected, payload, signature}; the signature is computed over exactly the two strings that are emitted.
+  W1: wire shape of the JWS envelope / protected header / account payloads and what is accepted of the directory, read off the
+  derived serde impls (props/wire_shape.py).
 """
 from ..flow import arg_origins, origins
 from ..mir import op_const, op_local, try_edges
@@ -29,7 +31,8 @@ from .http_common import POST, SEND, fresh_nonce_rule, nonce_update_rule, post_s
 LEVEL = "other"
 TECHNIQUE = ("provenance of the POST body/URL/nonce, must-pass-through of update_nonce on every exit of a received response, "
              "who-may-call for encode_jwk/encode_kid/encode_kid_mac with argument provenance over all builder closures, "
-             "table extraction (algorithms, widths) by abstract interpretation, serializer member extraction")
+             "table extraction (algorithms, widths) by abstract interpretation, serializer member extraction"
+             '; derived-serde shape tables (member names, optional members)')
 LEVEL_TEXT = ("Decides for every flow, key type and retry history the structural facts a valid JWS needs: URL and nonce binding, "
               "nonce refreshed from every response before any exit, jwk only for account creation and inside key-change, "
               "matching key/algorithm, the full algorithm and width tables. That a signature verifies and that base64url is "
